@@ -98,7 +98,7 @@ def pyshape(t, sigs):
         if op in ("&", "|", "^"):
             return unify([a, b])
         if op == "<<":
-            return (a[0] + 2 ** b[0] - 1, a[1])
+            return (a[0] + 2 ** max(0, b[0]) - 1, a[1])      # (a malformed operand may have a negative width)
         if op == ">>":
             return a
         return (1, False)
